@@ -105,6 +105,9 @@ func (j *JwtAuthenticator) authenticate(ctx context.Context, bearerToken string)
 		return nil, fmt.Errorf("invalid sub %v", sa.Sub)
 	}
 	parts := strings.Split(sa.Sub, ":")
+	if len(parts) != 4 {
+		return nil, fmt.Errorf("invalid sub %v", sa.Sub)
+	}
 	ns := parts[2]
 	ksa := parts[3]
 	if !checkAudience(sa.Aud, j.audiences) {
